@@ -5,6 +5,7 @@ mod api;
 mod termconf;
 mod show;
 mod est;
+mod sched;
 
 use std::io::{BufRead, BufWriter, Write};
 
@@ -45,6 +46,36 @@ fn main() {
                     writeln!(out, "{}", serde_json::json!({"h": hist["h"], "i": n + 1, "op": "abort", "b": 0, "calls": [], "q": 0, "t": 0, "ret": "abort",
                         "panic": format!("process aborted (status {status}): panic while panicking"), "pipe": 0, "failed": 0,
                         "frac": -1, "shown": [], "get": {"has": false, "pos": [0,0,0,0,0], "pos_s": 0, "len": [0,0,0,0,0], "len_s": 0, "haslen": false, "msg": [], "prefix": [], "fin": false}})).unwrap();
+                }
+            }
+        }
+        "sync" => {
+            // one forked child per program; a child that does not finish in time is a hang
+            for line in input.lines() {
+                let line = line.unwrap();
+                if line.trim().is_empty() { continue; }
+                let prog: serde_json::Value = serde_json::from_str(&line).expect("bad program json");
+                out.flush().unwrap();
+                let pid = unsafe { libc::fork() };
+                if pid == 0 {
+                    sched::run_program(&prog, &mut out);
+                    out.flush().unwrap();
+                    unsafe { libc::_exit(0) };
+                }
+                let t0 = std::time::Instant::now();
+                let mut status: libc::c_int = 0;
+                let mut done = false;
+                while t0.elapsed() < std::time::Duration::from_secs(40) {
+                    let r = unsafe { libc::waitpid(pid, &mut status, libc::WNOHANG) };
+                    if r == pid { done = true; break; }
+                    std::thread::sleep(std::time::Duration::from_millis(2));
+                }
+                if !done { unsafe { libc::kill(pid, libc::SIGKILL); libc::waitpid(pid, &mut status, 0); } }
+                if !done || !(libc::WIFEXITED(status) && libc::WEXITSTATUS(status) == 0) {
+                    use std::io::Seek;
+                    out.flush().unwrap();
+                    let _ = out.get_mut().seek(std::io::SeekFrom::End(0));
+                    writeln!(out, "{}", serde_json::json!({"h": prog["h"], "i": 1, "op": "run", "result": if done { "crash" } else { "hang" }, "steps": [], "blocked": [], "deviations": 0, "nthreads": 0, "panic": "", "spinners": [], "tticks": 0, "spincheck": false, "final_pos": -1, "pos0": 0})).unwrap();
                 }
             }
         }
